@@ -38,7 +38,7 @@ def writer_field(p):
 def run_cfg(ctx, p, cfg):
     wf = None
     with ctx.rule("R1", "critical section", cfg) as r:
-        f = p.fn(APPEND)
+        f = p.fn_inl(APPEND, wanted=[ENCODE, FLUSH, "lock_api::mutex::Mutex::<R, T>::lock"])
         wf = writer_field(p)
         locks = q.lock_sites(f)
         r.require(len(locks) == 1, "single-lock", fn=f,
@@ -78,7 +78,7 @@ def run_cfg(ctx, p, cfg):
                       detail="every return is preceded by the guard's drop")
 
     with ctx.rule("R2", "acknowledged => flushed", cfg) as r:
-        f = p.fn(APPEND)
+        f = p.fn_inl(APPEND, wanted=[ENCODE, FLUSH, "lock_api::mutex::Mutex::<R, T>::lock"])
         enc = f.calls(ENCODE)
         fl = [c.block for c in f.calls(FLUSH)]
         if len(enc) != 1:
